@@ -1,5 +1,8 @@
 """Translator for constant tables: /repo/src -> coq/gen/SrcGen.v (regenerated on every run, written only when changed).
-Deliberately dumb: regular expressions over the known shapes. A shape that is no longer recognised sets srcgen_failed."""
+Deliberately dumb: regular expressions over the known shapes. A table whose shape is no longer recognised is NOT guessed: SrcGen.v then aliases the
+published value for that table and the table is listed as unrecognised (the tie for it is the correspondence check alone on this run); a recognised
+table with a different value makes props/Tables.v fail for the tables the properties specify. Tables no property specifies (buffer sizes, file stems,
+header texts, the opreturn line format) are read by the model from SrcGen, so they simply follow the source."""
 import os, re, sys
 from . import build
 
@@ -22,8 +25,19 @@ def _product(expr):
     for part in expr.split('*'): v *= _num(part)
     return v
 
+def GROUP_OF(msg):
+    for key, g in (('coin', 'coins'), ('aux', 'coins'), ('BLOCK_', 'status'), ('mask', 'status'), ('status filter', 'status'), ('record field', 'status'), ('template', 'templates'), ('opcode', 'templates'),
+                   ('eval_script_pattern', 'templates'), ('p2sh', 'address'), ('p2pkh', 'address'), ('p2pk', 'address'), ('get_base_reward', 'reward'), ('READER_BUFSIZE', 'reader_bufsize'),
+                   ('blk name', 'blk_names'), ('csvdump cap', 'writer_caps'), ('unspent writer', 'unspent_writer'), ('balances writer', 'balances_writer'), ('csvdump stems', 'csv_stems'),
+                   ('unspent header', 'unspent_header'), ('balances header', 'balances_header'), ('opreturn format', 'opreturn_format')):
+        if key in msg: return g
+    return 'shape'          # a shape check without a table of its own (key filter, dispatch, seek(offset - 4), rename shape)
+
 def extract():
     fails = []; out = {}
+    class _F(list):
+        def append(self, msg, group=None): list.append(self, (group or GROUP_OF(msg), msg))
+    fails = _F()
     # ---- types.rs: coins ----
     t = _nolinecomments(_read('blockchain/parser/types.rs'))
     t = re.sub(r'/\*.*?\*/', '', t, flags=re.S)
@@ -142,49 +156,59 @@ def extract():
     return out
 
 def render(t):
+    bad = {g for g, _ in t['fails']}
     L = []
     a = L.append
     a('(* GENERATED by vlib/srcgen.py from /repo/src on every run. Do not edit. *)')
-    a('From Coq Require Import List NArith Bool.\nImport ListNotations.\nOpen Scope N_scope.')
-    a('Definition srcgen_failed : bool := %s.' % ('true' if t['fails'] else 'false'))
-    for f in t['fails']: a('(* unrecognised: %s *)' % f.replace('*)', '* )'))
+    a('From Coq Require Import List NArith Bool.\nFrom RBP Require Published.\nImport ListNotations.\nOpen Scope N_scope.')
+    for g, f in t['fails']: a('(* unrecognised [%s]: %s *)' % (g, f.replace('*)', '* )')))
+    def table(group, text, names):
+        """the literal read from the source when the group was recognised, otherwise an alias of the published value (listed as unrecognised)"""
+        if group in bad or text is None: a('\n'.join('Definition %s := Published.%s.' % (n, n) for n in names))
+        else: a(text)
     def hexbytes(h): return '[' + '; '.join(str(b) for b in bytes.fromhex(h)[::-1]) + ']'
     a('(* coins: name, magic, version_id, genesis hash (internal byte order), AuxPoW activation version *)')
-    a('Definition coins : list (list N * (N * N * list N * option N)) := [')
-    a(';\n'.join('  (%s, (%d, %d, %s, %s))' % (_coqstr(n), mg, v, hexbytes(g), 'Some %d' % au if au is not None else 'None') for n, mg, v, g, au in t.get('coins', [])))
-    a('].')
+    table('coins', 'Definition coins : list (list N * (N * N * list N * option N)) := [\n' +
+          ';\n'.join('  (%s, (%d, %d, %s, %s))' % (_coqstr(n), mg, v, hexbytes(g), 'Some %d' % au if au is not None else 'None') for n, mg, v, g, au in t.get('coins', [])) + '\n].', ['coins'])
     c = t.get('consts', {})
-    a('Definition BLOCK_VALID_CHAIN : N := %d.\nDefinition BLOCK_HAVE_DATA : N := %d.\nDefinition BLOCK_HAVE_UNDO : N := %d.' % (c.get('BLOCK_VALID_CHAIN', 0), c.get('BLOCK_HAVE_DATA', 0), c.get('BLOCK_HAVE_UNDO', 0)))
-    a('Definition status_mask : N := %d.\nDefinition file_mask : N := %d.\nDefinition pos_mask : N := %d.' % (t.get('status_mask') or 0, t.get('file_mask', 0), t.get('pos_mask', 0)))
+    ok_status = all(k in c for k in ('BLOCK_VALID_CHAIN', 'BLOCK_HAVE_DATA', 'BLOCK_HAVE_UNDO')) and all(isinstance(t.get(k), int) for k in ('status_mask', 'file_mask', 'pos_mask'))
+    table('status', ('Definition BLOCK_VALID_CHAIN : N := %d.\nDefinition BLOCK_HAVE_DATA : N := %d.\nDefinition BLOCK_HAVE_UNDO : N := %d.\nDefinition status_mask : N := %d.\nDefinition file_mask : N := %d.\nDefinition pos_mask : N := %d.'
+                     % (c['BLOCK_VALID_CHAIN'], c['BLOCK_HAVE_DATA'], c['BLOCK_HAVE_UNDO'], t['status_mask'], t['file_mask'], t['pos_mask'])) if ok_status else None,
+          ['BLOCK_VALID_CHAIN', 'BLOCK_HAVE_DATA', 'BLOCK_HAVE_UNDO', 'status_mask', 'file_mask', 'pos_mask'])
     a('(* fork-coin templates in cascade order: pattern tag, slots (None = data) *)')
-    a('Definition templates : list (N * list (option N)) := [')
-    a(';\n'.join('  (%d, [%s])' % (tag, '; '.join('None' if s is None else 'Some %d' % s for s in slots)) for tag, slots in t.get('templates', [])))
-    a('].')
-    a('Definition p2sh_version : N := %d.\nDefinition addr_slots : N * N * N := (%d, %d, %d).' % (t.get('p2sh_version', 0), t.get('p2pkh_slot', 0), t.get('p2pk_slot', 0), t.get('p2sh_slot', 0)))
-    a('Definition reward : N := %d.\nDefinition halving_interval : N := %d.\nDefinition halving_cap : N := %d.' % (t.get('reward', 0), t.get('halving_interval', 0), t.get('halving_cap', 0)))
-    a('Definition reader_bufsize : N := %d.' % t.get('reader_bufsize', 0))
-    a('Definition blk_prefix : list N := %s.\nDefinition blk_ext : list N := %s.' % (_coqstr(t.get('blk_prefix', '')), _coqstr(t.get('blk_ext', ''))))
-    a('Definition writer_caps : N * N * N := (%d, %d, %d).' % (t.get('csv_cap', 0), t.get('unspent_cap', 0), t.get('balances_cap', 0)))
-    a('Definition csv_stems : list (list N) := [%s].' % '; '.join(_coqstr(s) for s in t.get('csv_stems', [])))
-    a('Definition unspent_stem : list N := %s.\nDefinition balances_stem : list N := %s.' % (_coqstr(t.get('unspent_stem', '')), _coqstr(t.get('balances_stem', ''))))
-    a('Definition unspent_header : list N := %s.\nDefinition balances_header : list N := %s.' % (_coqstr(t.get('unspent_header', '')), _coqstr(t.get('balances_header', ''))))
-    a('Definition opreturn_format : list N := %s.' % _coqstr(t.get('opreturn_format', '')))
+    table('templates', 'Definition templates : list (N * list (option N)) := [\n' +
+          ';\n'.join('  (%d, [%s])' % (tag, '; '.join('None' if s is None else 'Some %d' % s for s in slots)) for tag, slots in t.get('templates', [])) + '\n].', ['templates'])
+    ok_addr = all(k in t for k in ('p2sh_version', 'p2pkh_slot', 'p2pk_slot', 'p2sh_slot'))
+    table('address', ('Definition p2sh_version : N := %d.\nDefinition addr_slots : N * N * N := (%d, %d, %d).' % (t['p2sh_version'], t['p2pkh_slot'], t['p2pk_slot'], t['p2sh_slot'])) if ok_addr else None, ['p2sh_version', 'addr_slots'])
+    ok_rew = all(k in t for k in ('reward', 'halving_interval', 'halving_cap'))
+    table('reward', ('Definition reward : N := %d.\nDefinition halving_interval : N := %d.\nDefinition halving_cap : N := %d.' % (t['reward'], t['halving_interval'], t['halving_cap'])) if ok_rew else None, ['reward', 'halving_interval', 'halving_cap'])
+    table('blk_names', ('Definition blk_prefix : list N := %s.\nDefinition blk_ext : list N := %s.' % (_coqstr(t['blk_prefix']), _coqstr(t['blk_ext']))) if 'blk_prefix' in t else None, ['blk_prefix', 'blk_ext'])
+    a('(* ---- not specified by any property: the model follows the source ---- *)')
+    table('reader_bufsize', ('Definition reader_bufsize : N := %d.' % t['reader_bufsize']) if 'reader_bufsize' in t else None, ['reader_bufsize'])
+    ok_caps = all(k in t for k in ('csv_cap', 'unspent_cap', 'balances_cap')) and not ({'unspent_writer', 'balances_writer'} & bad)
+    table('writer_caps', ('Definition writer_caps : N * N * N := (%d, %d, %d).' % (t['csv_cap'], t['unspent_cap'], t['balances_cap'])) if ok_caps else None, ['writer_caps'])
+    table('csv_stems', ('Definition csv_stems : list (list N) := [%s].' % '; '.join(_coqstr(s) for s in t.get('csv_stems', []))) if len(t.get('csv_stems', [])) == 4 else None, ['csv_stems'])
+    table('unspent_writer', ('Definition unspent_stem : list N := %s.' % _coqstr(t['unspent_stem'])) if 'unspent_stem' in t else None, ['unspent_stem'])
+    table('balances_writer', ('Definition balances_stem : list N := %s.' % _coqstr(t['balances_stem'])) if 'balances_stem' in t else None, ['balances_stem'])
+    table('unspent_header', ('Definition unspent_header : list N := %s.' % _coqstr(t['unspent_header'])) if 'unspent_header' in t else None, ['unspent_header'])
+    table('balances_header', ('Definition balances_header : list N := %s.' % _coqstr(t['balances_header'])) if 'balances_header' in t else None, ['balances_header'])
+    table('opreturn_format', ('Definition opreturn_format : list N := %s.' % _coqstr(t['opreturn_format'])) if 'opreturn_format' in t else None, ['opreturn_format'])
     return '\n'.join(L) + '\n'
 
 def regenerate():
-    """returns (ok, detail); writes coq/gen/SrcGen.v when changed"""
+    """returns (recognised everything?, detail); writes coq/gen/SrcGen.v when changed"""
     try:
         t = extract()
     except Exception as e:
-        t = dict(fails=['exception: %r' % e])
+        t = dict(fails=[(g, 'exception: %r' % e) for g in ('coins', 'status', 'templates', 'address', 'reward', 'blk_names', 'reader_bufsize', 'writer_caps', 'csv_stems', 'unspent_writer',
+                                                            'balances_writer', 'unspent_header', 'balances_header', 'opreturn_format')])
     txt = render(t)
     d = os.path.join(build.COQ, 'gen'); os.makedirs(d, exist_ok=True)
     p = os.path.join(d, 'SrcGen.v')
     if not os.path.exists(p) or open(p).read() != txt:
         with open(p, 'w') as f: f.write(txt)
-    return (not t['fails']), '; '.join(t['fails'])
+    return (not t['fails']), '; '.join('%s: %s' % gf for gf in t['fails'])
 
 if __name__ == '__main__':
     ok, detail = regenerate()
-    print('srcgen', 'ok' if ok else 'FAILED: ' + detail)
-    sys.exit(0 if ok else 1)
+    print('srcgen', 'ok: every shape recognised' if ok else 'shapes not recognised (published values aliased): ' + detail)
